@@ -65,7 +65,9 @@ func (f *fetchResult) getResponse() (data io.ReadCloser, header http.Header, sta
 	case fetchTypeDirect:
 		return f.Direct.Response.Body, f.Direct.Response.Header, f.Direct.UpstreamStatus
 	case fetchTypeCached:
-		return f.Cached.Entry.Data, f.Cached.Entry.Metadata.Object.Header, f.Cached.UpstreamStatus
+		// A stored response is always a 200, whatever the origin said when it was last asked
+		// (nothing on a hit, 304 on a revalidation).
+		return f.Cached.Entry.Data, f.Cached.Entry.Metadata.Object.Header, http.StatusOK
 	}
 	return nil, nil, 0
 }
